@@ -281,6 +281,14 @@ class BGP(protocol.Protocol):
         if len(msg) >= 4:
             # anything shorter is not an UPDATE message; count it once, whatever decoding makes of it
             self.msg_recv_stat['Updates'] += 1
+        try:
+            self._process_update(timestamp, msg)
+        finally:
+            # whatever decoding and bookkeeping make of it, the state machine has received an UPDATE message
+            self.fsm.update_received()
+
+    def _process_update(self, timestamp, msg):
+        """decode a received UPDATE message and hand it to the RIB and the handler"""
         result = Update().parse(timestamp, msg, self.fourbytesas, afi_add_path={})
         if result['sub_error']:
             msg = {
@@ -293,7 +301,6 @@ class BGP(protocol.Protocol):
             self.handler.on_update_error(self, timestamp, msg)
 
             LOG.error('[%s] Update message error: sub error=%s', self.factory.peer_addr, result['sub_error'])
-            self.fsm.update_received()
             return
 
         afi_safi = None
@@ -320,8 +327,6 @@ class BGP(protocol.Protocol):
                 self.update_rib_in_ipv4(msg)
                 # LOG.info(msg)
         self.handler.update_received(self, timestamp, msg)
-
-        self.fsm.update_received()
 
     def send_update(self, msg):
         """
